@@ -215,7 +215,8 @@ def judge_instance(ctx, case):
     ctx.case()
     inst = Instance.from_sequence_and_distance(
         list(objs), lambda a, b: df(a[1], b[1]), power, horizon, ("pos",),
-        lambda o: str(o[0]))
+        lambda o: str(o[0]),
+        name=("seq" if len(objs) % 2 else None))
     ctx.count("instances_judged")
     ctx.count(f"dist[{dk}]")
     # oracle: representatives
